@@ -7,21 +7,39 @@ Open Scope Z_scope.
 (* ---------------------------------------------------------------------------------------------- *)
 (* automation: unfold the methods, split every test                                                *)
 
-Ltac unf :=
+Ltac unf1 :=
   unfold step, do_count, do_setval, do_accrual_hit, do_sequence_hit, do_complete, do_reset, do_enable,
     do_disable, timer_start, upd, accepted, goal_reached_by, completes, resets, ghost_step,
-    count_ev, set_enabled, set_completed, set_value, set_steps, set_ignore, set_tmo, set_win in *.
+    count_ev in *.
+
+(* reduce setters / projections on explicit states only (never Z arithmetic) *)
+Ltac rs :=
+  cbn [set_enabled set_completed set_value set_steps set_ignore set_tmo set_win
+       enabled completed value steps ignore tmo win fst snd negb andb orb app filter length
+       is_hit_ev is_complete_ev] in *.
+
+Ltac atom b :=
+  match b with
+  | negb ?x => atom x
+  | andb ?x _ => atom x
+  | orb ?x _ => atom x
+  | _ => b
+  end.
 
 Ltac split_ifs :=
-  repeat (cbn [fst snd enabled completed value steps ignore tmo win filter length app
-               is_hit_ev is_complete_ev negb andb orb] in *;
+  repeat (rs;
           match goal with
-          | |- context [if ?b then _ else _] => destruct b eqn:?
+          | |- context [if ?b then _ else _] => let a := atom b in destruct a eqn:?
           | |- context [match ?x with KCounter => _ | KAccrual => _ | KSequence => _ end] => destruct x eqn:?
-          | |- context [let '(_, _) := ?x in _] => destruct x eqn:?
           end).
 
-Ltac fin := cbn in *; try congruence; try lia; auto.
+Ltac unf := repeat unf1.
+
+(* destruct the state with its three flags, and the two completion options *)
+Ltac cases_st s c :=
+  destruct s as [[] [] ?v ?l [] ?tm ?wi]; destruct (roc c) eqn:?; destruct (doc c) eqn:?.
+
+Ltac fin := rs; try reflexivity; try congruence; try lia; auto.
 
 (* ---------------------------------------------------------------------------------------------- *)
 (* exec plumbing                                                                                   *)
@@ -64,13 +82,665 @@ Lemma do_complete_eq c now s :
   do_complete c now s =
   if completed s then (s, []) else (complete_state c now s, complete_events c s).
 Proof.
-  unfold do_complete, complete_state, complete_events, do_reset, do_disable, timer_start, upd,
-    set_enabled, set_completed, set_value, set_steps, set_tmo.
-  destruct (completed s); [reflexivity|].
-  destruct (roc c), (doc c), (0 <? timeout c); cbn; try rewrite andb_true_r; try rewrite andb_false_r; reflexivity.
+  destruct s as [en co v l ig tm wi].
+  unfold do_complete, complete_state, complete_events, do_reset, do_disable, timer_start, upd. rs.
+  destruct co; [reflexivity|].
+  destruct (roc c), (doc c), (0 <? timeout c); rs;
+    try rewrite andb_true_r; try rewrite andb_false_r; reflexivity.
 Qed.
 
 Lemma complete_events_counts c s :
   count_ev is_hit_ev (complete_events c s) = 0%nat /\ count_ev is_complete_ev (complete_events c s) = 1%nat.
 Proof. unfold complete_events, count_ev. destruct (roc c), (doc c); cbn; auto. Qed.
 
+(* ---------------------------------------------------------------------------------------------- *)
+(* counter: value of one step                                                                      *)
+
+Definition value_after (c : cfg) (s : st) (o : op) : Z :=
+  if resets c s o then start c
+  else match o with
+       | Count => if accepted c s o then value s + hit_value c else value s
+       | Add z => value s + z
+       | Sub z => value s - z
+       | Jump z => z
+       | _ => value s
+       end.
+
+Lemma step_value c t s o :
+  ckind c = KCounter -> value (fst (step c t s o)) = value_after c s o.
+Proof.
+  intro K. unfold value_after. cases_st s c;
+  destruct o; unf; unfold start_value; rewrite ?K; split_ifs; fin.
+Qed.
+
+Definition ginv (c : cfg) (s : st) (bn : Z * Z) : Prop := value s = fst bn + hit_value c * snd bn.
+
+Lemma ghost_step_inv c t s o bn :
+  ckind c = KCounter -> ginv c s bn -> ginv c (fst (step c t s o)) (ghost_step c s o bn).
+Proof.
+  intros K G. unfold ginv in *. rewrite step_value by assumption. unfold value_after, ghost_step.
+  destruct (resets c s o); [cbn; lia|].
+  destruct o; rewrite ?K; cbn [fst snd]; try lia.
+  destruct (accepted c s Count); cbn [fst snd]; lia.
+Qed.
+
+Lemma ghost_inv c h : forall s bn,
+  ckind c = KCounter -> ginv c s bn -> ginv c (fst (exec c s h)) (ghost c s h bn).
+Proof.
+  induction h as [|[t o] h IH]; intros s bn K G; [exact G|].
+  rewrite exec_cons. cbn [fst ghost]. apply IH; [assumption|]. apply ghost_step_inv; assumption.
+Qed.
+
+Lemma ghost_step_base c s o bn :
+  is_control o = false -> fst bn = start c -> fst (ghost_step c s o bn) = start c.
+Proof.
+  intros NC B. unfold ghost_step. destruct (resets c s o); [reflexivity|].
+  destruct o; try discriminate; try assumption.
+  destruct (accepted c s Count); assumption.
+Qed.
+
+Lemma ghost_base c h : forall s bn,
+  no_control h = true -> fst bn = start c -> fst (ghost c s h bn) = start c.
+Proof.
+  induction h as [|[t o] h IH]; intros s bn NC B; [exact B|].
+  cbn in NC. apply andb_true_iff in NC as [N1 N2]. cbn [ghost]. apply IH; [assumption|].
+  apply ghost_step_base; [|assumption]. destruct (is_control o); [discriminate|reflexivity].
+Qed.
+
+Lemma ghost_step_nonneg c s o bn : 0 <= snd bn -> 0 <= snd (ghost_step c s o bn).
+Proof.
+  intro H. unfold ghost_step. destruct (resets c s o); [cbn; lia|].
+  destruct o; try assumption; try (destruct (ckind c); cbn; assumption || lia).
+  destruct (accepted c s Count); cbn; lia.
+Qed.
+
+Lemma ghost_nonneg c h : forall s bn, 0 <= snd bn -> 0 <= snd (ghost c s h bn).
+Proof.
+  induction h as [|[t o] h IH]; intros s bn H; [exact H|].
+  cbn [ghost]. apply IH. apply ghost_step_nonneg; assumption.
+Qed.
+
+Lemma init_value c : ckind c = KCounter -> value (init c) = start c.
+Proof. intro K. unfold init, start_value. rewrite K. destruct (boot_enabled c); unf; split_ifs; fin. Qed.
+
+Lemma counter_value_formula_l :
+  forall (c : cfg) (h : list (Z * op)),
+    ckind c = KCounter ->
+    let s := fst (exec c (init c) h) in
+    let bn := ghost c (init c) h (start c, 0) in
+    value s = fst bn + hit_value c * snd bn /\ 0 <= snd bn /\
+    (no_control h = true -> value s = start c + hit_value c * snd bn).
+Proof.
+  intros c h K s bn.
+  assert (G : ginv c s bn).
+  { apply ghost_inv; [assumption|]. unfold ginv. cbn [fst snd]. rewrite init_value by assumption. lia. }
+  split; [exact G|]. split; [apply ghost_nonneg; cbn; lia|].
+  intro NC. unfold ginv in G. rewrite G. unfold bn. rewrite ghost_base; auto.
+Qed.
+
+(* ---------------------------------------------------------------------------------------------- *)
+(* hit events                                                                                      *)
+
+Lemma step_hit_events c t s o :
+  count_ev is_hit_ev (snd (step c t s o)) = if accepted c s o then 1%nat else 0%nat.
+Proof.
+  destruct (ckind c) eqn:K; cases_st s c; destruct o; unf; rewrite ?K; split_ifs; fin.
+Qed.
+
+Lemma exec_hit_events c h : forall s,
+  count_ev is_hit_ev (snd (exec c s h)) = n_accepted c s h.
+Proof.
+  induction h as [|[t o] h IH]; intro s; [reflexivity|].
+  rewrite exec_cons. cbn [snd n_accepted]. rewrite count_ev_app, step_hit_events, IH. reflexivity.
+Qed.
+
+(* a hit that is not accepted leaves a counter / sequence untouched and posts nothing *)
+Lemma rejected_hit_noop c t s o :
+  ckind c <> KAccrual -> (o = Count \/ exists k, o = Hit k) -> accepted c s o = false ->
+  step c t s o = (s, []).
+Proof.
+  intros K O A. destruct (ckind c) eqn:KK; try congruence;
+    destruct O as [->|[k ->]]; unfold step, accepted in *; rewrite KK in *; try reflexivity.
+  - unfold do_count. destruct (enabled s); [|reflexivity]. destruct (ignore s); [reflexivity|discriminate].
+  - unfold do_sequence_hit. destruct (enabled s); [|reflexivity]. cbn in A. rewrite A. reflexivity.
+Qed.
+
+(* ---------------------------------------------------------------------------------------------- *)
+(* completion                                                                                      *)
+
+Lemma set_nth_already k : forall l, nth k l false = true -> set_nth k l = l.
+Proof.
+  induction k as [|k IH]; intros [|b l] H; cbn in *; try reflexivity.
+  - subst; reflexivity.
+  - rewrite IH; auto.
+Qed.
+
+Ltac already :=
+  match goal with
+  | H : nth ?k ?l false = true |- _ => rewrite (set_nth_already k l H) in *
+  end.
+
+Lemma step_complete_events c t s o :
+  count_ev is_complete_ev (snd (step c t s o)) = if completes c s o then 1%nat else 0%nat.
+Proof.
+  destruct (ckind c) eqn:K; cases_st s c; destruct o; unf; rewrite ?K; split_ifs; fin;
+    already; congruence.
+Qed.
+
+(* what the block looks like right after an operation that completes it *)
+Lemma step_completes_state c t s o :
+  completes c s o = true ->
+  let s' := fst (step c t s o) in
+  completed s' = negb (roc c) /\
+  enabled s' = enabled s && negb (doc c) /\
+  (roc c = true -> value s' = start_value c /\ steps s' = start_steps c) /\
+  tmo s' = (if doc c then None else if roc c && (0 <? timeout c) then Some (t + timeout c) else None).
+Proof.
+  destruct (ckind c) eqn:K; cases_st s c; destruct o; unf; rewrite ?K; rs;
+    try discriminate; split_ifs; rs; try discriminate; intros H; repeat split; intros; fin;
+    try (already; congruence).
+Qed.
+
+Lemma completed_sticky c t s o :
+  roc c = false -> is_reset_op o = false -> completed s = true ->
+  completed (fst (step c t s o)) = true.
+Proof.
+  intros R O C. destruct (ckind c) eqn:K; destruct s as [[] co v l [] tm wi]; rs; subst co;
+    destruct (doc c) eqn:?; destruct o; try discriminate; unf; rewrite ?K, ?R; split_ifs; fin.
+Qed.
+
+Lemma complete_once_l c h : forall s,
+  roc c = false -> forallb (fun to => negb (is_reset_op (snd to))) h = true ->
+  (count_ev is_complete_ev (snd (exec c s h)) <= 1)%nat /\
+  (completed s = true -> count_ev is_complete_ev (snd (exec c s h)) = 0%nat).
+Proof.
+  induction h as [|[t o] h IH]; intros s R NR; [cbn; auto|].
+  cbn in NR. apply andb_true_iff in NR as [N1 N2]. apply negb_true_iff in N1.
+  rewrite exec_cons. cbn [snd]. rewrite count_ev_app, step_complete_events.
+  destruct (IH (fst (step c t s o)) R N2) as [I1 I2].
+  destruct (completes c s o) eqn:CP.
+  - pose proof (step_completes_state c t s o CP) as [C1 _]. rewrite R in C1. cbn in C1.
+    rewrite (I2 C1). split; [lia|]. intro C. unfold completes in CP. rewrite C in CP. discriminate.
+  - split; [lia|]. intro C. rewrite I2; [reflexivity|]. apply completed_sticky; assumption.
+Qed.
+
+(* ---------------------------------------------------------------------------------------------- *)
+(* counter: "at the moment the goal is reached"                                                    *)
+
+Definition cinv (c : cfg) (s : st) : Prop := completed s = true -> reached c (value s) = true.
+
+Lemma reached_mono c v : reached c v = true -> reached c (v + hit_value c) = true.
+Proof.
+  unfold reached, hit_value. destruct (goal c) as [g|]; [|discriminate].
+  pose proof (Z.abs_nonneg (interval c)).
+  destruct (down c); intro R; [apply Z.leb_le in R; apply Z.leb_le; lia|apply Z.leb_le in R; apply Z.leb_le; lia].
+Qed.
+
+Lemma cinv_step c t s o :
+  ckind c = KCounter -> is_control o = false -> cinv c s -> cinv c (fst (step c t s o)).
+Proof.
+  intros K NC I. unfold cinv in *.
+  destruct s as [en [] v l ig tm wi]; rs.
+  - specialize (I eq_refl). pose proof (reached_mono c v I) as M.
+    destruct en, ig; destruct (roc c) eqn:?; destruct (doc c) eqn:?; destruct o; try discriminate;
+      unf; rewrite ?K; split_ifs; fin.
+  - clear I. destruct en, ig; destruct (roc c) eqn:?; destruct (doc c) eqn:?; destruct o; try discriminate;
+      unf; rewrite ?K; split_ifs; fin.
+Qed.
+
+Lemma cinv_exec c h : forall s,
+  ckind c = KCounter -> no_control h = true -> cinv c s -> cinv c (fst (exec c s h)).
+Proof.
+  induction h as [|[t o] h IH]; intros s K NC I; [exact I|].
+  cbn in NC. apply andb_true_iff in NC as [N1 N2]. apply negb_true_iff in N1.
+  rewrite exec_cons. cbn [fst]. apply IH; auto. apply cinv_step; auto.
+Qed.
+
+Lemma cinv_init c : cinv c (init c).
+Proof. unfold cinv, init. destruct (boot_enabled c); unf; split_ifs; fin. Qed.
+
+Lemma goal_transition_completes_l :
+  forall c h t, ckind c = KCounter -> no_control h = true ->
+    let s := fst (exec c (init c) h) in
+    accepted c s Count = true ->
+    reached c (value s) = false -> reached c (value s + hit_value c) = true ->
+    count_ev is_complete_ev (snd (step c t s Count)) = 1%nat.
+Proof.
+  intros c h t K NC s A R0 R1. rewrite step_complete_events.
+  assert (I : cinv c s) by (apply cinv_exec; auto; apply cinv_init).
+  unfold completes, goal_reached_by. rewrite K, A, R1.
+  destruct (completed s) eqn:C; [|reflexivity]. rewrite (I C) in R0. discriminate.
+Qed.
+
+(* with a jump back below the goal the "completed" flag survives: the second arrival at the goal is silent *)
+Definition jump_cfg : cfg := mkCfg KCounter 0 false 1 0 (Some 2) false false 0 0 true.
+Definition jump_hist : list (Z * op) := [(2000, Count); (2125, Count); (2250, Jump 1)].
+
+Lemma control_ops_break_goal_transition_l :
+  exists c h t, ckind c = KCounter /\
+    let s := fst (exec c (init c) h) in
+    accepted c s Count = true /\
+    reached c (value s) = false /\ reached c (value s + hit_value c) = true /\
+    count_ev is_complete_ev (snd (step c t s Count)) = 0%nat.
+Proof. exists jump_cfg, jump_hist, 2375. vm_compute. repeat split; reflexivity. Qed.
+
+(* ---------------------------------------------------------------------------------------------- *)
+(* timeout                                                                                         *)
+
+Lemma timeout_resets_l c t s :
+  let '(s', es) := step c t s FireTimeout in
+  value s' = start_value c /\ steps s' = start_steps c /\ completed s' = false /\
+  enabled s' = enabled s /\
+  tmo s' = (if 0 <? timeout c then Some (t + timeout c) else None) /\
+  es = [ETimeout; EUpdated (start_value c) (start_steps c) (enabled s)].
+Proof. destruct s as [en co v l ig tm wi]. unf. split_ifs; fin; repeat split; fin. Qed.
+
+(* ---------------------------------------------------------------------------------------------- *)
+(* accrual                                                                                         *)
+
+Lemma set_nth_length k : forall l, length (set_nth k l) = length l.
+Proof. induction k; intros [|b l]; cbn; auto. Qed.
+
+Lemma set_nth_oob k : forall l, (length l <= k)%nat -> set_nth k l = l.
+Proof. induction k; intros [|b l] H; cbn in *; try reflexivity; try lia. rewrite IHk; auto; lia. Qed.
+
+Lemma all_true_set_nth k : forall l, all_true l = true -> all_true (set_nth k l) = true.
+Proof.
+  unfold all_true. induction k; intros [|b l] H; cbn in *; auto.
+  - apply andb_true_iff in H as [_ H]. exact H.
+  - apply andb_true_iff in H as [H1 H2]. rewrite H1. cbn. apply IHk; exact H2.
+Qed.
+
+Lemma mark_length ks : forall l, length (mark ks l) = length l.
+Proof. unfold mark. induction ks; intro l; cbn; auto. rewrite IHks. apply set_nth_length. Qed.
+
+Lemma all_true_mark ks : forall l, all_true l = true -> all_true (mark ks l) = true.
+Proof. unfold mark. induction ks; intros l H; cbn; auto. apply IHks. apply all_true_set_nth; exact H. Qed.
+
+Lemma set_nth_comm a : forall b l, set_nth a (set_nth b l) = set_nth b (set_nth a l).
+Proof. induction a; intros [|b'] [|x l']; cbn; try reflexivity. rewrite IHa. reflexivity. Qed.
+
+Lemma mark_set_nth ks : forall k l, mark ks (set_nth k l) = set_nth k (mark ks l).
+Proof.
+  unfold mark. induction ks as [|a ks IH]; intros k l; cbn; [reflexivity|].
+  rewrite (set_nth_comm a k). apply IH.
+Qed.
+
+Lemma mark_perm ks ks' : Permutation ks ks' -> forall l, mark ks l = mark ks' l.
+Proof.
+  induction 1; intro m.
+  - reflexivity.
+  - unfold mark in *. cbn. apply IHPermutation.
+  - unfold mark. cbn. rewrite set_nth_comm. reflexivity.
+  - rewrite IHPermutation1. apply IHPermutation2.
+Qed.
+
+Lemma mark_app a b l : mark (a ++ b) l = mark b (mark a l).
+Proof. unfold mark. apply fold_left_app. Qed.
+
+Lemma accrual_step_progress c t s k :
+  ckind c = KAccrual -> enabled s = true -> all_true (set_nth k (steps s)) = false ->
+  let r := step c t s (Hit k) in
+  steps (fst r) = set_nth k (steps s) /\ enabled (fst r) = true /\ completed (fst r) = completed s /\
+  count_ev is_complete_ev (snd r) = 0%nat.
+Proof.
+  intros K E A. destruct s as [en co v l ig tm wi]. rs. subst en.
+  unfold step, do_accrual_hit. rewrite K. rs.
+  destruct (Nat.ltb k (length l)) eqn:LT; rs.
+  - destruct (nth k l false) eqn:N.
+    + rewrite (set_nth_already k l N) in *. rs. rewrite A. rs. auto.
+    + rs. rewrite A. rs. auto.
+  - apply Nat.ltb_ge in LT. rewrite set_nth_oob by exact LT. auto.
+Qed.
+
+Lemma accrual_progress c tks : forall s,
+  ckind c = KAccrual -> enabled s = true ->
+  all_true (mark (map snd tks) (steps s)) = false ->
+  let r := exec c s (hits_of tks) in
+  steps (fst r) = mark (map snd tks) (steps s) /\ enabled (fst r) = true /\
+  completed (fst r) = completed s /\ count_ev is_complete_ev (snd r) = 0%nat.
+Proof.
+  induction tks as [|[t k] tks IH]; intros s K E A.
+  - cbn. auto.
+  - cbn [map snd] in *. unfold hits_of in *. cbn [map fst snd]. rewrite exec_cons. cbn [fst snd].
+    assert (A1 : all_true (set_nth k (steps s)) = false).
+    { destruct (all_true (set_nth k (steps s))) eqn:X; [|reflexivity].
+      unfold mark in A. cbn in A. fold (mark (map snd tks) (set_nth k (steps s))) in A.
+      rewrite all_true_mark in A by exact X. discriminate. }
+    destruct (accrual_step_progress c t s k K E A1) as (S1 & E1 & C1 & N1).
+    specialize (IH (fst (step c t s (Hit k))) K E1).
+    rewrite S1 in IH. unfold mark in A. cbn in A. specialize (IH A).
+    destruct IH as (S2 & E2 & C2 & N2).
+    rewrite S2, E2, C2, C1, count_ev_app, N1, N2. unfold mark. cbn. auto.
+Qed.
+
+Lemma accrual_any_order_l :
+  forall c tks t k s,
+    ckind c = KAccrual -> enabled s = true -> completed s = false ->
+    all_true (mark (map snd tks) (steps s)) = false ->
+    all_true (mark (map snd tks ++ [k]) (steps s)) = true ->
+    let r := exec c s (hits_of tks) in
+    steps (fst r) = mark (map snd tks) (steps s) /\
+    count_ev is_complete_ev (snd r) = 0%nat /\
+    count_ev is_complete_ev (snd (step c t (fst r) (Hit k))) = 1%nat.
+Proof.
+  intros c tks t k s K E C A B r.
+  destruct (accrual_progress c tks s K E A) as (S1 & E1 & C1 & N1). fold r in S1, E1, C1, N1.
+  split; [exact S1|]. split; [exact N1|].
+  rewrite step_complete_events. unfold completes, goal_reached_by. rewrite K, C1, C, E1, S1. rs.
+  rewrite mark_app in B. unfold mark at 1 in B. cbn [fold_left] in B. rewrite B.
+  destruct (Nat.ltb k (length (mark (map snd tks) (steps s)))) eqn:LT; [reflexivity|].
+  apply Nat.ltb_ge in LT. rewrite set_nth_oob in B by exact LT. congruence.
+Qed.
+
+(* which steps are set after marking, and when a fresh accrual is complete *)
+Lemma nth_set_nth i k : forall l,
+  nth i (set_nth k l) false = nth i l false || (Nat.eqb i k && Nat.ltb i (length l)).
+Proof.
+  revert i. induction k; intros [|i] [|b l]; cbn; rewrite ?orb_true_r, ?orb_false_r, ?andb_false_r;
+    try reflexivity.
+  apply IHk.
+Qed.
+
+Lemma nth_mark ks : forall i l,
+  nth i (mark ks l) false = nth i l false || (existsb (Nat.eqb i) ks && Nat.ltb i (length l)).
+Proof.
+  unfold mark. induction ks as [|k ks IH]; intros i l; cbn [fold_left existsb].
+  - cbn. rewrite orb_false_r. reflexivity.
+  - rewrite IH, nth_set_nth, set_nth_length.
+    destruct (nth i l false), (Nat.eqb i k), (existsb (Nat.eqb i) ks), (Nat.ltb i (length l)); reflexivity.
+Qed.
+
+Lemma all_true_nth : forall l, all_true l = true <-> (forall i, (i < length l)%nat -> nth i l false = true).
+Proof.
+  unfold all_true. induction l as [|b l IH]; cbn; split; intros H.
+  - intros i Hi; lia.
+  - reflexivity.
+  - apply andb_true_iff in H as [H1 H2]. intros [|i] Hi; [exact H1|]. apply IH; [exact H2|lia].
+  - apply andb_true_iff. split; [apply (H 0%nat); lia|]. apply IH. intros i Hi. apply (H (S i)). lia.
+Qed.
+
+Lemma nth_repeat_false i n : nth i (repeat false n) false = false.
+Proof. revert i. induction n; intros [|i]; cbn; auto. Qed.
+
+Lemma accrual_complete_iff_all_steps_l n ks :
+  all_true (mark ks (repeat false n)) = true <-> (forall i, (i < n)%nat -> In i ks).
+Proof.
+  rewrite all_true_nth, mark_length, repeat_length. split; intros H i Hi; specialize (H i Hi).
+  - rewrite nth_mark, nth_repeat_false, repeat_length in H. cbn in H.
+    apply andb_true_iff in H as [H _]. apply existsb_exists in H as (x & Hx & E).
+    apply Nat.eqb_eq in E. subst. exact Hx.
+  - rewrite nth_mark, nth_repeat_false, repeat_length. cbn. apply andb_true_iff. split.
+    + apply existsb_exists. exists i. split; [exact H|apply Nat.eqb_refl].
+    + apply Nat.ltb_lt. exact Hi.
+Qed.
+
+(* ---------------------------------------------------------------------------------------------- *)
+(* sequence                                                                                        *)
+
+Lemma seq_adv_ge ks : forall v, v <= seq_adv v ks.
+Proof.
+  unfold seq_adv. induction ks as [|k ks IH]; intro v; cbn [fold_left]; [lia|].
+  destruct (Z.of_nat k =? v); [specialize (IH (v + 1)); lia|apply IH].
+Qed.
+
+Lemma sequence_wrong_step_noop_l c t s k :
+  ckind c = KSequence -> Z.of_nat k <> value s -> step c t s (Hit k) = (s, []).
+Proof.
+  intros K N. unfold step, do_sequence_hit. rewrite K. destruct (enabled s); [|reflexivity].
+  apply Z.eqb_neq in N. rewrite N. reflexivity.
+Qed.
+
+Lemma sequence_step c t s k :
+  ckind c = KSequence -> enabled s = true ->
+  (if Z.of_nat k =? value s then value s + 1 else value s) < Z.of_nat (nsteps c) ->
+  let r := step c t s (Hit k) in
+  value (fst r) = (if Z.of_nat k =? value s then value s + 1 else value s) /\
+  enabled (fst r) = true /\ completed (fst r) = completed s /\
+  count_ev is_complete_ev (snd r) = 0%nat.
+Proof.
+  intros K E L. destruct s as [en co v l ig tm wi]. rs. subst en.
+  unfold step, do_sequence_hit. rewrite K. rs.
+  destruct (Z.of_nat k =? v) eqn:M; rs; [|auto].
+  destruct (Z.of_nat (nsteps c) <=? v + 1) eqn:G; [apply Z.leb_le in G; lia|]. rs. auto.
+Qed.
+
+Lemma sequence_progress c tks : forall s,
+  ckind c = KSequence -> enabled s = true ->
+  seq_adv (value s) (map snd tks) < Z.of_nat (nsteps c) ->
+  let r := exec c s (hits_of tks) in
+  value (fst r) = seq_adv (value s) (map snd tks) /\ enabled (fst r) = true /\
+  completed (fst r) = completed s /\ count_ev is_complete_ev (snd r) = 0%nat.
+Proof.
+  induction tks as [|[t k] tks IH]; intros s K E L.
+  - cbn. auto.
+  - unfold hits_of in *. cbn [map fst snd] in *. rewrite exec_cons. cbn [fst snd].
+    unfold seq_adv in L. cbn [fold_left] in L.
+    fold (seq_adv (if Z.of_nat k =? value s then value s + 1 else value s) (map snd tks)) in L.
+    pose proof (seq_adv_ge (map snd tks) (if Z.of_nat k =? value s then value s + 1 else value s)) as GE.
+    destruct (sequence_step c t s k K E ltac:(lia)) as (V1 & E1 & C1 & N1).
+    specialize (IH (fst (step c t s (Hit k))) K E1). rewrite V1 in IH. specialize (IH L).
+    destruct IH as (V2 & E2 & C2 & N2).
+    rewrite V2, E2, C2, C1, count_ev_app, N1, N2. unfold seq_adv. cbn [fold_left]. auto.
+Qed.
+
+Lemma sequence_strict_order_l :
+  forall c tks t k s,
+    ckind c = KSequence -> enabled s = true -> completed s = false ->
+    seq_adv (value s) (map snd tks) < Z.of_nat (nsteps c) ->
+    let r := exec c s (hits_of tks) in
+    value (fst r) = seq_adv (value s) (map snd tks) /\
+    count_ev is_complete_ev (snd r) = 0%nat /\
+    (Z.of_nat k = value (fst r) -> Z.of_nat (nsteps c) <= value (fst r) + 1 ->
+     count_ev is_complete_ev (snd (step c t (fst r) (Hit k))) = 1%nat) /\
+    (Z.of_nat k <> value (fst r) -> step c t (fst r) (Hit k) = (fst r, [])).
+Proof.
+  intros c tks t k s K E C L r.
+  destruct (sequence_progress c tks s K E L) as (V1 & E1 & C1 & N1). fold r in V1, E1, C1, N1.
+  split; [exact V1|]. split; [exact N1|]. split.
+  - intros M G. rewrite step_complete_events. unfold completes, goal_reached_by, accepted.
+    rewrite K, C1, C, E1. apply Z.eqb_eq in M. rewrite M. apply Z.leb_le in G. rewrite G. reflexivity.
+  - intro N. apply sequence_wrong_step_noop_l; assumption.
+Qed.
+
+(* ---------------------------------------------------------------------------------------------- *)
+(* hit window                                                                                      *)
+
+Definition winv (s : st) : Prop := ignore s = isSome (win s).
+
+Definition opens_window (c : cfg) (s : st) (o : op) : bool :=
+  match o with Count => accepted c s o && (0 <? window c) | _ => false end.
+
+Lemma window_step_l c t s o :
+  let s' := fst (step c t s o) in
+  (win s' = if opens_window c s o then Some (t + window c)
+            else match o with FireWindow => None | _ => win s end) /\
+  (ignore s' = if opens_window c s o then true
+               else match o with FireWindow => false | _ => ignore s end).
+Proof.
+  unfold opens_window.
+  destruct (ckind c) eqn:K; cases_st s c; destruct o; unf; rewrite ?K; split_ifs; fin.
+Qed.
+
+Lemma winv_step c t s o : winv s -> winv (fst (step c t s o)).
+Proof.
+  unfold winv. intro W. destruct (window_step_l c t s o) as [W1 W2]. rewrite W1, W2.
+  destruct (opens_window c s o); [reflexivity|]. destruct o; auto.
+Qed.
+
+Lemma winv_init c : winv (init c).
+Proof. unfold winv, init. destruct (boot_enabled c); unf; split_ifs; fin. Qed.
+
+Lemma window_invariant_l c h : winv (fst (exec c (init c) h)).
+Proof.
+  generalize (winv_init c). generalize (init c).
+  induction h as [|[t o] h IH]; intros s W; [exact W|].
+  rewrite exec_cons. cbn [fst]. apply IH. apply winv_step. exact W.
+Qed.
+
+(* ---------------------------------------------------------------------------------------------- *)
+(* the timed run is an execution of a history: the groups' operations plus delay expiries          *)
+
+Lemma apply_ops_exec c t ops : forall s, apply_ops c t s ops = exec c s (map (pair t) ops).
+Proof.
+  induction ops as [|o ops IH]; intro s; [reflexivity|].
+  cbn [apply_ops map exec]. destruct (step c t s o) as [s1 e1]. rewrite IH. reflexivity.
+Qed.
+
+Lemma next_due_sound s t d o :
+  next_due s t = Some (d, o) ->
+  d <= t /\ ((o = FireWindow /\ win s = Some d) \/ (o = FireTimeout /\ tmo s = Some d)).
+Proof.
+  unfold next_due. destruct (win s) as [w|], (tmo s) as [m|];
+    repeat match goal with |- context [if ?b then _ else _] => destruct b eqn:? end;
+    intro H; inversion H; subst; split;
+    try (apply Z.leb_le; assumption); auto.
+Qed.
+
+Definition expiry_ok (t : Z) (to : Z * op) : Prop :=
+  fst to <= t /\ (snd to = FireTimeout \/ snd to = FireWindow).
+
+Lemma advance_exec fuel c t : forall s,
+  exists h, fst (advance fuel c t s) = fst (exec c s h) /\
+            map snd (snd (advance fuel c t s)) = snd (exec c s h) /\
+            Forall (expiry_ok t) h.
+Proof.
+  induction fuel as [|f IH]; intro s.
+  - exists []. cbn. auto.
+  - cbn [advance]. destruct (next_due s t) as [[d o]|] eqn:N.
+    + destruct (next_due_sound s t d o N) as [D O].
+      destruct (IH (fst (step c d s o))) as (h & H1 & H2 & H3).
+      exists ((d, o) :: h). rewrite exec_cons.
+      destruct (step c d s o) as [s1 e1]. cbn [fst snd] in *.
+      destruct (advance f c t s1) as [s2 e2]. cbn [fst snd] in *.
+      split; [exact H1|]. split.
+      * rewrite map_app, map_map. cbn [snd]. rewrite map_id, H2. reflexivity.
+      * constructor; [|exact H3]. split; [exact D|]. cbn. destruct O as [[-> _]|[-> _]]; auto.
+    + exists []. cbn. auto.
+Qed.
+
+Lemma events_of_app a b : events_of (a ++ b) = events_of a ++ events_of b.
+Proof. induction a as [|[t e|] a IH]; cbn; [reflexivity| |]; rewrite IH; reflexivity. Qed.
+
+Lemma events_of_stamped (l : list (Z * ev)) :
+  events_of (map (fun te => OEv (fst te) (snd te)) l) = map snd l.
+Proof. induction l as [|[t e] l IH]; cbn; [reflexivity|]. rewrite IH. reflexivity. Qed.
+
+Lemma events_of_at t l : events_of (map (OEv t) l) = l.
+Proof. induction l as [|e l IH]; cbn; [reflexivity|]. rewrite IH. reflexivity. Qed.
+
+Lemma timed_run_refines_exec_l c groups : forall now s,
+  exists h, fst (trun_aux c now s groups) = fst (exec c s h) /\
+            events_of (snd (trun_aux c now s groups)) = snd (exec c s h).
+Proof.
+  induction groups as [|[t ops] g IH]; intros now s.
+  - exists []. cbn. auto.
+  - cbn [trun_aux].
+    destruct (advance_exec (fuel_for now t) c t s) as (h1 & A1 & A2 & _).
+    destruct (advance (fuel_for now t) c t s) as [s1 e1]. cbn [fst snd] in *.
+    rewrite apply_ops_exec.
+    destruct (exec c s1 (map (pair t) ops)) as [s2 e2] eqn:X2.
+    destruct (IH t s2) as (h3 & B1 & B2).
+    destruct (trun_aux c t s2 g) as [s3 o3]. cbn [fst snd] in *.
+    exists (h1 ++ map (pair t) ops ++ h3).
+    rewrite !exec_app. cbn [fst snd]. rewrite <- A1, X2. cbn [fst snd]. rewrite <- A2.
+    split; [exact B1|].
+    rewrite !events_of_app, events_of_stamped, events_of_at. cbn [events_of]. rewrite B2.
+    reflexivity.
+Qed.
+
+(* ---------------------------------------------------------------------------------------------- *)
+(* the hypotheses of the theorems are satisfiable on non-trivial states                            *)
+
+(* counter: up by 2 from 5, goal 11, 250 ms window, stays enabled and un-reset on completion *)
+Definition ex_counter : cfg := mkCfg KCounter 0 false 2 5 (Some 11) false false 250 0 true.
+Definition ex_counter_hist : list (Z * op) :=
+  [(2000, Count); (2125, Count) (* inside the window *); (2250, FireWindow); (2250, Disable);
+   (2375, Count) (* disabled *); (2500, Enable); (2500, Count)].
+
+Example counter_value_formula_ex :
+  ckind ex_counter = KCounter /\ no_control ex_counter_hist = true /\
+  value (fst (exec ex_counter (init ex_counter) ex_counter_hist)) = 9 /\
+  ghost ex_counter (init ex_counter) ex_counter_hist (start ex_counter, 0) = (5, 2) /\
+  n_accepted ex_counter (init ex_counter) ex_counter_hist = 2%nat /\
+  count_ev is_hit_ev (snd (exec ex_counter (init ex_counter) ex_counter_hist)) = 2%nat.
+Proof. vm_compute. repeat split; reflexivity. Qed.
+
+(* with control events: add 3, then a jump; the formula follows base and n *)
+Example counter_value_formula_control_ex :
+  let h := ex_counter_hist ++ [(2750, FireWindow); (2750, Add 3); (2875, Count); (3000, Jump 1);
+                               (3250, FireWindow); (3250, Count)] in
+  value (fst (exec ex_counter (init ex_counter) h)) = 3 /\
+  ghost ex_counter (init ex_counter) h (start ex_counter, 0) = (1, 1).
+Proof. vm_compute. split; reflexivity. Qed.
+
+(* complete once: five accepted hits run past the goal 11, one completion event *)
+Definition ex_complete_hist : list (Z * op) :=
+  [(2000, Count); (2250, FireWindow); (2250, Count); (2500, FireWindow); (2500, Count);
+   (2750, FireWindow); (2750, Count); (3000, FireWindow); (3000, Count); (3000, Disable); (3125, Enable)].
+
+Example complete_once_ex :
+  roc ex_counter = false /\
+  forallb (fun to => negb (is_reset_op (snd to))) ex_complete_hist = true /\
+  value (fst (exec ex_counter (init ex_counter) ex_complete_hist)) = 15 /\
+  count_ev is_complete_ev (snd (exec ex_counter (init ex_counter) ex_complete_hist)) = 1%nat.
+Proof. vm_compute. repeat split; reflexivity. Qed.
+
+Example goal_transition_completes_ex :
+  let h := [(2000, Count); (2250, FireWindow); (2250, Count); (2500, FireWindow)] in
+  let s := fst (exec ex_counter (init ex_counter) h) in
+  no_control h = true /\ accepted ex_counter s Count = true /\
+  reached ex_counter (value s) = false /\ reached ex_counter (value s + hit_value ex_counter) = true /\
+  completes ex_counter s Count = true.
+Proof. vm_compute. repeat split; reflexivity. Qed.
+
+(* completion with reset and disable: the state after the completing step *)
+Definition ex_counter_rd : cfg := mkCfg KCounter 0 true 1 3 (Some 1) true true 0 1000 true.
+Example step_completes_state_ex :
+  let s := fst (exec ex_counter_rd (init ex_counter_rd) [(2000, Count)]) in
+  completes ex_counter_rd s Count = true /\
+  snd (step ex_counter_rd 2125 s Count) =
+    [EUpdated 1 [] true; ELegacyHit 1 (Some (2, 0)); EHit 1 (Some (2, 0)); EComplete;
+     EUpdated 3 [] true; EUpdated 3 [] false].
+Proof. vm_compute. split; reflexivity. Qed.
+
+Definition ex_accrual : cfg := mkCfg KAccrual 3 false 1 0 None true false 0 0 true.
+Example accrual_any_order_ex :
+  let s := init ex_accrual in
+  let tks := [(2000, 2%nat); (2125, 0%nat); (2250, 2%nat)] in
+  enabled s = true /\ completed s = false /\
+  all_true (mark (map snd tks) (steps s)) = false /\
+  all_true (mark (map snd tks ++ [1%nat]) (steps s)) = true /\
+  steps (fst (exec ex_accrual s (hits_of tks))) = [true; false; true].
+Proof. vm_compute. repeat split; reflexivity. Qed.
+
+Definition ex_sequence : cfg := mkCfg KSequence 3 false 1 0 None true true 0 0 true.
+Example sequence_strict_order_ex :
+  let s := init ex_sequence in
+  let tks := [(2000, 1%nat); (2125, 0%nat); (2250, 2%nat); (2375, 1%nat); (2500, 0%nat)] in
+  enabled s = true /\ completed s = false /\
+  seq_adv (value s) (map snd tks) = 2 /\ 2 < Z.of_nat (nsteps ex_sequence) /\
+  Z.of_nat (nsteps ex_sequence) <= 2 + 1 /\
+  snd (step ex_sequence 2625 (fst (exec ex_sequence s (hits_of tks))) (Hit 2)) =
+    [EUpdated 3 [] true; EHit 3 None; EComplete; EUpdated 0 [] true; EUpdated 0 [] false].
+Proof. vm_compute. repeat split; try reflexivity; intro; discriminate. Qed.
+
+Example window_invariant_ex :
+  let s := fst (exec ex_counter (init ex_counter) [(2000, Count)]) in
+  ignore s = true /\ win s = Some 2250 /\ accepted ex_counter s Count = false /\
+  step ex_counter 2125 s Count = (s, []).
+Proof. vm_compute. repeat split; reflexivity. Qed.
+
+(* timed run: the window expiry at 2250 and the periodic timeout are inserted by the run itself *)
+Definition ex_timed : cfg := mkCfg KCounter 0 false 1 0 (Some 3) false false 250 1000 true.
+Example timed_run_ex :
+  run (ex_timed, [(2000, [Count]); (2125, [Count]); (2250, [Count]); (3000, [])]) =
+  [OEv 1000 ETimeout; OEv 1000 (EUpdated 0 [] true); OEv 2000 ETimeout; OEv 2000 (EUpdated 0 [] true);
+   OEv 2000 (EUpdated 1 [] true); OEv 2000 (ELegacyHit 1 (Some (1, 2))); OEv 2000 (EHit 1 (Some (1, 2)));
+   OSnap 2000 1 [] true false true true true;
+   OSnap 2125 1 [] true false true true true;
+   OEv 2250 (EUpdated 2 [] true); OEv 2250 (ELegacyHit 2 (Some (2, 1))); OEv 2250 (EHit 2 (Some (2, 1)));
+   OSnap 2250 2 [] true false true true true;
+   OEv 3000 ETimeout; OEv 3000 (EUpdated 0 [] true);
+   OSnap 3000 0 [] true false false true false].
+Proof. vm_compute. reflexivity. Qed.
